@@ -132,6 +132,24 @@ func (e *env) finish() string {
 	return ""
 }
 
+// guard runs one SDK call under a watchdog: a GetSession / Close / encrypt that never returns is
+// a violation ("keeps working", "released exactly once"), not a slow test.
+func guard(what string, desc func() string, f func()) {
+	done := make(chan any, 1)
+	go func() {
+		defer func() { done <- recover() }()
+		f()
+	}()
+	select {
+	case p := <-done:
+		if p != nil {
+			panic(p)
+		}
+	case <-time.After(30 * time.Second):
+		kit.Abort(fmt.Sprintf("C16 violated: %s did not return within 30s (blocked forever)\n  %s", what, desc()))
+	}
+}
+
 type handle struct {
 	s    *appencryption.Session
 	part string
@@ -154,6 +172,7 @@ func TestSequential(t *testing.T) {
 			kit.Rec.Violation(msg)
 			t.Fatalf("C16 violated: %s\n  config: %s\n  history: %s", msg, c, strings.Join(trace, "; "))
 		}
+		where := func() string { return fmt.Sprintf("config: %s\n  history: %s", c, strings.Join(trace, "; ")) }
 		lastGetPart := ""
 		var lastGet *appencryption.Session
 		firstSeen := map[*appencryption.Session]time.Time{}
@@ -161,8 +180,10 @@ func TestSequential(t *testing.T) {
 		t.Repeat(map[string]func(*rapid.T){
 			"get": func(t *rapid.T) {
 				part := fmt.Sprintf("p%d", rapid.IntRange(0, c.parts-1).Draw(t, "part"))
-				s, err := e.f.GetSession(part)
 				trace = append(trace, "get "+part)
+				var s *appencryption.Session
+				var err error
+				guard("GetSession("+part+")", where, func() { s, err = e.f.GetSession(part) })
 				if err != nil {
 					bad("GetSession(" + part + ") failed: " + err.Error())
 				}
@@ -190,7 +211,10 @@ func TestSequential(t *testing.T) {
 				h := handles[rapid.IntRange(0, len(handles)-1).Draw(t, "handle")]
 				n++
 				trace = append(trace, fmt.Sprintf("use %s(stale=%v)", h.part, h.stale))
-				if msg := e.use(h.s, h.part, rapid.IntRange(0, 99).Draw(t, "pick"), fmt.Sprint(n)); msg != "" {
+				pick := rapid.IntRange(0, 99).Draw(t, "pick")
+				var msg string
+				guard("an operation on a held session of "+h.part, where, func() { msg = e.use(h.s, h.part, pick, fmt.Sprint(n)) })
+				if msg != "" {
 					bad(msg + fmt.Sprintf(" (the session had left the cache: %v)", h.stale))
 				}
 				if h.stale {
@@ -204,8 +228,10 @@ func TestSequential(t *testing.T) {
 				}
 				i := rapid.IntRange(0, len(handles)-1).Draw(t, "handle")
 				trace = append(trace, "close "+handles[i].part)
-				if err := handles[i].s.Close(); err != nil {
-					bad("Session.Close failed: " + err.Error())
+				var cerr error
+				guard("Session.Close on "+handles[i].part, where, func() { cerr = handles[i].s.Close() })
+				if cerr != nil {
+					bad("Session.Close failed: " + cerr.Error())
 				}
 				handles = append(handles[:i], handles[i+1:]...)
 				lastGetPart = "" // the pointer rule is only asserted for back-to-back gets
@@ -219,13 +245,19 @@ func TestSequential(t *testing.T) {
 		})
 		for _, h := range handles {
 			// every still-held session works right up to the end
-			if msg := e.use(h.s, h.part, 1, "final"); msg != "" {
+			var msg string
+			guard("the final use and Close of a held session of "+h.part, where, func() {
+				msg = e.use(h.s, h.part, 1, "final")
+				h.s.Close()
+			})
+			if msg != "" {
 				bad(msg + " (final use)")
 			}
-			h.s.Close()
 		}
-		if msg := e.finish(); msg != "" {
-			bad(msg)
+		var fmsg string
+		guard("SessionFactory.Close", where, func() { fmsg = e.finish() })
+		if fmsg != "" {
+			bad(fmsg)
 		}
 		var ks []string
 		for k := range kinds {
@@ -511,5 +543,105 @@ func TestLargeSessionCaches(t *testing.T) {
 			return map[string]any{"config": c.String(), "gets": 2 * steps}
 		})
 		kit.Rec.Label("large-session-cache:" + p.SessionCacheEvictionPolicy)
+	})
+}
+
+// TestHotPartition: many goroutines get and close the SAME cached partition over and over
+// while one handle to it is held the whole time; then other partitions push it out of the
+// cache. The held handle works until it is closed, and afterwards the session is torn down
+// exactly once (the usage count neither loses a holder nor invents one).
+func TestHotPartition(t *testing.T) {
+	kit.Check(t, 6, 120, func(t *rapid.T) {
+		verifhook.InstallClock(time.Unix(1_700_000_000, 0))
+		defer verifhook.RemoveClock()
+		p := appencryption.NewCryptoPolicy()
+		p.ExpireKeyAfter, p.RevokeCheckInterval, p.CreateDatePrecision = time.Hour, time.Hour, time.Second
+		p.CacheSessions = true
+		p.SessionCacheMaxSize = rapid.IntRange(1, 3).Draw(t, "sessCap")
+		p.SessionCacheEvictionPolicy = rapid.SampledFrom([]string{"", "lru", "lfu", "slru", "tinylfu"}).Draw(t, "sessPolicy")
+		p.SessionCacheDuration = time.Hour
+		c := cfg{pol: p, parts: p.SessionCacheMaxSize + 2}
+		e := newEnv(c)
+		workers := rapid.IntRange(2, 8).Draw(t, "workers")
+		rounds := rapid.IntRange(2000, kit.Pick(12000, 40000)).Draw(t, "rounds")
+		bad := func(msg string) {
+			kit.Rec.Violation(msg)
+			t.Fatalf("C16 violated: %s\n  config: %s, %d goroutines x %d get/close of one partition", msg, c, workers, rounds)
+		}
+		held, err := e.f.GetSession("hot")
+		if err != nil {
+			bad("GetSession failed: " + err.Error())
+		}
+		if msg := e.use(held, "hot", 0, "first"); msg != "" {
+			bad(msg)
+		}
+		var wg sync.WaitGroup
+		var first atomic.Value
+		start := make(chan struct{})
+		for w := 0; w < workers; w++ {
+			wg.Add(1)
+			go func(w int) {
+				defer wg.Done()
+				defer func() {
+					if p := recover(); p != nil {
+						first.CompareAndSwap(nil, fmt.Sprintf("worker %d panicked: %v", w, p))
+					}
+				}()
+				<-start
+				for i := 0; i < rounds && first.Load() == nil; i++ {
+					s, err := e.f.GetSession("hot")
+					if err != nil {
+						first.CompareAndSwap(nil, "GetSession(hot) failed: "+err.Error())
+						return
+					}
+					if s != held {
+						first.CompareAndSwap(nil, "a GetSession for a cached partition whose session is held returned another underlying session")
+						return
+					}
+					if i%64 == 0 {
+						if msg := e.use(s, "hot", i, fmt.Sprintf("w%d-%d", w, i)); msg != "" {
+							first.CompareAndSwap(nil, msg)
+							return
+						}
+					}
+					s.Close()
+				}
+			}(w)
+		}
+		close(start)
+		done := make(chan struct{})
+		go func() { wg.Wait(); close(done) }()
+		select {
+		case <-done:
+		case <-time.After(60 * time.Second):
+			kit.Abort(fmt.Sprintf("C16 violated: goroutines getting and closing one cached partition did not finish within 60s (deadlock)\n  config: %s", c))
+		}
+		if v := first.Load(); v != nil {
+			bad(v.(string))
+		}
+		// push the hot partition out of the cache while it is still held
+		for i := 0; i < c.parts; i++ {
+			name := fmt.Sprintf("p%d", i)
+			s, err := e.f.GetSession(name)
+			if err != nil {
+				bad("GetSession failed: " + err.Error())
+			}
+			if msg := e.use(s, name, 0, "push"); msg != "" {
+				bad(msg)
+			}
+			s.Close()
+		}
+		time.Sleep(2 * time.Millisecond)
+		if msg := e.use(held, "hot", 1, "after eviction"); msg != "" {
+			bad(msg + " (the handle was held the whole time; the session left the cache meanwhile)")
+		}
+		held.Close()
+		if msg := e.finish(); msg != "" {
+			bad(msg)
+		}
+		kit.Rec.Case(fmt.Sprintf("hot|%s|%d|%d", c, workers, rounds), true, func() any {
+			return map[string]any{"config": c.String(), "goroutines": workers, "get_close_rounds_each": rounds}
+		})
+		kit.Rec.Label("hot-partition")
 	})
 }
